@@ -309,6 +309,16 @@ func runSeqJob(job *SeqJob, shard, nshards int, budget time.Duration) *seqResult
 // (clause, detail) or the canonical key of the state reached.
 func bfs(ctx *SeqCtx, alphabet []string, depth int, exec func(hist []int) (clause, detail, key string, steps int)) {
 	ctx.Alphabet(alphabet...)
+	// a panic that escapes a history is an observation about that history (clause "panic: ..."), not the end of the worker
+	unguarded := exec
+	exec = func(h []int) (cl, det, key string, steps int) {
+		cl, det = guard(func() (string, string) {
+			var c, d string
+			c, d, key, steps = unguarded(h)
+			return c, d
+		})
+		return
+	}
 	frontier := [][]int{{}}
 	names := func(h []int) []string {
 		out := make([]string, len(h))
